@@ -157,6 +157,9 @@ class Builder:
                 or isinstance(obj, BranchStatement)
                 or isinstance(obj, CaseStatement)
             ):
+                # Like a macro, a statement may have been built before the
+                # macros it calls were in scope.
+                obj = rebuild_macro_in_context(obj, context, gate_context)
                 statements.append(obj)
             elif isinstance(obj, UsePulsesStatement):
                 usepulses.append(obj)
